@@ -248,4 +248,18 @@ theorem C04_eliminate_set (f : Factor) (vs vs' : List Var) (h : ∀ v, v ∈ vs 
   simp only [hc]
   trivial
 
+/-- **a normalised table sums to one** over all joint states whenever the total is not zero (a posterior exists
+    iff P(evidence) ≠ 0) -/
+theorem C04_normalize_sums_to_one (K : Var → Nat) (f : Factor) (hf : f.WF K)
+    (hT : ((allIdx f.card).map (fun i => f.den (asgOf f.scope f.card i))).sum ≠ 0) :
+    ((allIdx f.card).map (fun i => (normalize f).den (asgOf f.scope f.card i))).sum = 1 := by
+  have e : (fun i => (normalize f).den (asgOf f.scope f.card i))
+      = (fun i => (1 / ((allIdx f.card).map (fun i => f.den (asgOf f.scope f.card i))).sum)
+          * f.den (asgOf f.scope f.card i)) := by
+    funext i
+    rw [C04_den_normalize K f hf]
+    rw [div_eq_mul_inv, one_div, mul_comm]
+  rw [e, list_sum_map_mul _ (fun i => f.den (asgOf f.scope f.card i))]
+  exact one_div_mul_cancel hT
+
 end PgmVerif
